@@ -123,11 +123,11 @@ Proof.
   exists (bs ++ l). split; [reflexivity|]. rewrite <- app_assoc, Ha. exact Hb.
 Qed.
 
-Lemma i_opaque_rt head (ds : list (dec ival)) (es : list (enc ival)) :
-  Forall2 rt ds es -> rt (i_odec head ds) (i_oenc head es).
+Lemma i_opaque_rt c head (ds : list (dec ival)) (es : list (enc ival)) :
+  Forall2 rt ds es -> rt (i_odec c head ds) (i_oenc c head es).
 Proof.
   intros H2 b v rest H. unfold i_odec in H. unfold i_oenc.
-  destruct (is_option head); [|discriminate].
+  destruct (negb c && is_option head); [|discriminate].
   destruct H2 as [|d e ds es Hde H2]; [discriminate|].
   destruct H2 as [|d2 e2 ds es _ _]; [|discriminate].
   destruct b as [|x r]; [discriminate|].
@@ -150,8 +150,8 @@ Qed.
 
 Theorem iprims_mono : prims_mono iprims.
 Proof.
-  intros head ds ds' H2 b x H. cbn [odec iprims] in *. unfold i_odec in *.
-  destruct (is_option head); [|discriminate].
+  intros c head ds ds' H2 b x H. cbn [odec iprims] in *. unfold i_odec in *.
+  destruct (negb c && is_option head); [|discriminate].
   destruct H2 as [|d d' ds ds' Hd H2]; [discriminate|].
   destruct H2 as [|d2 d2' ds ds' _ _]; [|discriminate].
   destruct b as [|y r]; [discriminate|].
@@ -255,11 +255,11 @@ Proof.
   reflexivity.
 Qed.
 
-Lemma i_opaque_tr head (es : list (enc ival)) (ds : list (dec ival)) :
-  Forall2 tr es ds -> tr (i_oenc head es) (i_odec head ds).
+Lemma i_opaque_tr c head (es : list (enc ival)) (ds : list (dec ival)) :
+  Forall2 tr es ds -> tr (i_oenc c head es) (i_odec c head ds).
 Proof.
   intros H2 v bs rest H. unfold i_oenc in H. unfold i_odec.
-  destruct (is_option head); [|discriminate].
+  destruct (negb c && is_option head); [|discriminate].
   destruct H2 as [|e d es ds Hed H2]; [discriminate|].
   destruct H2 as [|e2 d2 es ds _ _]; [|discriminate].
   destruct v as [x|l|l|l|i l|x|x]; try discriminate.
